@@ -13,8 +13,8 @@ import RxnModel.Model.Store
 * `finishSnapshotAsync` as it is after the D13 repair, split at its storage/lock boundaries:
   `write n` (file visible), `lock n` (the `stateMu` section: obsolete = completed ids `< n`,
   `completed := n :: newer`), then the two goroutines it starts: `remove ids` and the retained-ids
-  notification. Notifications are delivered FIFO (Go wakes blocked senders of a channel in arrival order;
-  goroutine start-up order is not modelled).
+  notification. Each notification is sent from its own goroutine, so `deliver k` may pick any started one
+  (D54); `Pub.fifo` records whether all deliveries so far were in start order.
 * `crash` = the job process is lost at this point and a new `Store` runs `LoadCheckpoint` on what is in storage.
 
 `Pub.written` and `Pub.delivered` are history variables. Core-only (imported by the compiled driver).
@@ -131,9 +131,12 @@ structure Pub where
   completed : List Nat             -- ids of `completedSnapshots`, in slice order (last = CurrentCheckpoint)
   inflight : List (Nat × Bool)     -- finished snapshots whose goroutine has not passed the lock section; flag = written
   removes : List (List Nat)        -- started `Remove` goroutines that have not run yet
-  notifs : List (List Nat)         -- started notifications, FIFO
+  notifs : List (List Nat)         -- started notification goroutines, in the order they were started
   written : List Nat               -- history: every id ever persisted (initial files included)
   delivered : List Nat             -- history: notified ids in delivery order
+  initial : List Nat := []         -- history: the snapshot files the storage held when the model starts
+  finished : List Store.Snap := [] -- history: every snapshot handed to the publisher (`finishSnapshot`), in order
+  fifo : Bool := true              -- history: every delivery so far took the oldest started notification
 deriving Repr, Inhabited
 
 structure Sys where
@@ -142,27 +145,30 @@ structure Sys where
 deriving Repr, Inhabited
 
 /-- a new `Store` running `LoadCheckpoint` on storage content `files` -/
-def boot (files written delivered : List Nat) : Sys :=
+def boot (files written delivered : List Nat) (initial : List Nat := []) (finished : List Store.Snap := [])
+    (fifo : Bool := true) : Sys :=
   { store := ⟨none, (load files).getD 0⟩,
     pub := { files, completed := (load files).toList, inflight := [], removes := [], notifs := [],
-             written, delivered } }
+             written, delivered, initial, finished, fifo } }
 
 /-- a new `Store` running `LoadCheckpoint` with `SavepointURI` set to the savepoint of checkpoint `id`, on a
 storage holding the job snapshot files `files`: the savepoint becomes the current checkpoint; the id counter
 continues after the savepoint's id and after the newest local snapshot file (D49 repair) -/
-def bootSavepoint (id : Nat) (files written delivered : List Nat) : Sys :=
+def bootSavepoint (id : Nat) (files written delivered : List Nat) (initial : List Nat := [])
+    (finished : List Store.Snap := []) : Sys :=
   { store := Store.loadFromSavepoint id (maxL files),
-    pub := { files, completed := [id], inflight := [], removes := [], notifs := [], written, delivered } }
+    pub := { files, completed := [id], inflight := [], removes := [], notifs := [], written, delivered,
+             initial, finished } }
 
 /-- the job starts on storage that already holds the snapshot files `files0` -/
-def init (files0 : List Nat) : Sys := boot files0 files0 []
+def init (files0 : List Nat) : Sys := boot files0 files0 [] files0 []
 
 inductive Act where
   | call (c : Store.Call)
   | write (n : Nat)
   | lock (n : Nat)
   | remove (ids : List Nat)
-  | deliver
+  | deliver (k : Nat)   -- the k-th started notification goroutine gets its send through (0 = the oldest)
   | crash
 deriving Repr
 
@@ -204,7 +210,8 @@ def step (s : Sys) : Act → Option (Sys × List Obs)
     match fin with
     | none => some ({ s with store := st' }, [.res r])
     | some snap =>
-      some ({ store := st', pub := { s.pub with inflight := s.pub.inflight ++ [(snap.id, false)] } },
+      some ({ store := st', pub := { s.pub with inflight := s.pub.inflight ++ [(snap.id, false)],
+                                                finished := s.pub.finished ++ [snap] } },
             [.res r, .finished snap])
   | .write n =>
     if (n, false) ∈ s.pub.inflight then
@@ -223,13 +230,16 @@ def step (s : Sys) : Act → Option (Sys × List Obs)
       some ({ s with pub := { s.pub with files := s.pub.files.filter (· ∉ ids),
                                          removes := s.pub.removes.erase ids } }, [.removed ids])
     else none
-  | .deliver =>
-    match s.pub.notifs with
-    | [] => none
-    | ids :: rest =>
-      some ({ s with pub := { s.pub with notifs := rest, delivered := s.pub.delivered ++ ids } }, [.notify ids])
+  | .deliver k =>
+    -- every notification is sent from its own goroutine (`go func() { ch <- ids }()`): which of the started
+    -- ones is received next is up to the scheduler (D54)
+    match s.pub.notifs[k]? with
+    | none => none
+    | some ids =>
+      some ({ s with pub := { s.pub with notifs := s.pub.notifs.eraseIdx k, delivered := s.pub.delivered ++ ids,
+                                         fifo := s.pub.fifo && k == 0 } }, [.notify ids])
   | .crash =>
-    some (boot s.pub.files s.pub.written s.pub.delivered, [.loaded (load s.pub.files)])
+    some (boot s.pub.files s.pub.written s.pub.delivered s.pub.initial s.pub.finished s.pub.fifo, [.loaded (load s.pub.files)])
 
 def run : Sys → List Act → Option (Sys × List Obs)
   | s, [] => some (s, [])
